@@ -200,6 +200,8 @@ def make_bulk(rng, spec, kind=None):
             spec['widths'] = [rng.choice([8, 16, 24, 40]) for _ in range(D)]
             if sum(spec['widths']) // 8 in (1, 2, 4, 8, 16):
                 spec['widths'][0] = 24
+        else:
+            spec['widths'] = [spec['widths'][0]] * rng.randint(1, 3)      # keep the file well below 10^8 bytes
         bpe = sum(w // 8 for w in spec['widths'])
         n = (1 << 20) // bpe + rng.randint(50000, 200000)
     else:
